@@ -52,9 +52,9 @@ func init() {
 }
 
 func c03Cases(tier string, seed int64) []string {
-	n := 8
+	n := 16
 	if tier == "thorough" {
-		n = 160
+		n = 1600
 	}
 	var l []string
 	for i := 0; i < n; i++ {
